@@ -90,6 +90,33 @@ pub mod verif {
 	pub fn btree_dump(db: &crate::Db, col: crate::ColId) -> crate::Result<TreeDump> {
 		db.verif_btree_dump(col)
 	}
+
+	/// Read-only structural dump of one hash column of a quiescent handle (C09 / C14).
+	#[derive(Debug, Clone, Default)]
+	pub struct VerifDump {
+		/// Index tables in search order: current first, then the reindex queue front to back.
+		/// Per table: (index bits, non-empty entries as (chunk, slot, raw entry)).
+		pub index: Vec<(u8, Vec<(u64, u8, u64)>)>,
+		/// Reindex progress (chunks of the queue front already planned).
+		pub progress: u64,
+		/// Value tables with at least one slot ever written.
+		pub tables: Vec<TableDump>,
+	}
+
+	/// One value table. `slots` covers every index in `1..filled`.
+	#[derive(Debug, Clone, Default)]
+	pub struct TableDump {
+		pub tier: u8,
+		pub entry_size: u16,
+		pub multipart: bool,
+		pub filled: u64,
+		pub last_removed: u64,
+		/// Free list as linked from `last_removed` (cut after `filled` steps or at an out of
+		/// range link, which is kept as the last element).
+		pub free_list: Vec<u64>,
+		/// (index, kind: 0 free / 1 head / 2 continuation or last part, next, key tail of heads)
+		pub slots: Vec<(u64, u8, u64, Vec<u8>)>,
+	}
 }
 
 pub const KEY_SIZE: usize = 32;
